@@ -102,6 +102,34 @@ func buildOverlay() (map[string][]byte, []string, error) {
 	return ov, pkgs, err
 }
 
+// harnessRoots lists the package patterns whose harness sources define Verif<prop>_ functions.
+func harnessRoots(prop string, all []string) []string {
+	var roots []string
+	re := regexp.MustCompile(`(?m)^func Verif` + regexp.QuoteMeta(prop) + `_`)
+	for _, pat := range all {
+		dir := strings.TrimPrefix(pat, "./")
+		src := filepath.Join(harnessDir, dir)
+		if dir == "." {
+			src = filepath.Join(harnessDir, "root")
+		}
+		ents, _ := os.ReadDir(src)
+		for _, e := range ents {
+			if e.IsDir() || !strings.HasSuffix(e.Name(), ".go") {
+				continue
+			}
+			b, _ := os.ReadFile(filepath.Join(src, e.Name()))
+			if re.Match(b) {
+				roots = append(roots, pat)
+				break
+			}
+		}
+	}
+	if len(roots) == 0 {
+		return all
+	}
+	return roots
+}
+
 type loaded struct {
 	prog  *ssa.Program
 	pkgs  []*packages.Package
@@ -325,8 +353,10 @@ func cmdCheck(args []string) int {
 		fmt.Fprintln(os.Stderr, "overlay:", err)
 		return 2
 	}
-	patterns := append([]string{".", "./channels/...", "./impl", "./transport/graphsync/...", "./channelmonitor", "./network",
-		"./message/...", "./registry", "./channelsubscriptions", "./tracing", "./transportoptions"}, hpkgs...)
+	// load only the packages that hold harnesses of this property (their import closure brings in
+	// the helper files of the packages they depend on): an edit of the repository that stops some
+	// OTHER property's harness from type-checking does not take this check down with it
+	patterns := harnessRoots(*prop, hpkgs)
 	ld, err := loadRepo(patterns, overlay)
 	if err != nil {
 		fmt.Fprintln(os.Stderr, "load:", err)
